@@ -28,8 +28,17 @@ CrossOK(e) ==
   ELSE IF Area(rd) = 0 THEN "ok"
   ELSE LET r == Clamp((rd[1] + rd[2]) \div 2 + 1, 1, e.hd - 1) q == Clamp((rd[3] + rd[4]) \div 2 + 1, 1, e.wd - 1) IN
        IF ~(Fin(e.T, r, q) /\ Fin(e.T, r + 1, q) /\ Fin(e.T, r, q + 1)) THEN "ok"
-       ELSE LET fd == Min2(FdSq(e, r, q, 0, 1), FdSq(e, r, q, 1, 0)) s == o.scale64 IN
-            IF ~(100 * s * s >= 64 * fd /\ 64 * s * s <= 100 * fd) THEN "scale_is_not_the_local_pixel_size_ratio_at_the_overlap_centre"     \* within 25%
+       ELSE LET fd == Min2(FdSq(e, r, q, 0, 1), FdSq(e, r, q, 1, 0)) s == o.scale64
+                \* the images of a step along the destination's x and y axis; where they are far from orthogonal (a strongly anisotropic source grid seen
+                \* under a rotation, e.g. 2 x 0.25 degree pixels next to a pole) "pixel size along an axis" has more than one reading - as for sheared
+                \* same-CRS maps the scale clause is then not demanded (the region clauses above are)
+                a == e.T[r][q] u0 == <<e.T[r][q + 1][1] - a[1], e.T[r][q + 1][2] - a[2]>> v0 == <<e.T[r + 1][q][1] - a[1], e.T[r + 1][q][2] - a[2]>>
+                m == SetMax({Abs(u0[1]), Abs(u0[2]), Abs(v0[1]), Abs(v0[2])}) \div 40 + 1          \* quantised to 1/40 of the largest component (32-bit integers)
+                u == <<u0[1] \div m, u0[2] \div m>> v == <<v0[1] \div m, v0[2] \div m>>
+                dot == u[1] * v[1] + u[2] * v[2] IN
+            IF fd < 1024 THEN "ok"         \* a destination pixel spans less than half a source pixel: the table (1/64 pixel) is too coarse to measure the ratio
+            ELSE IF 25 * dot * dot > (u[1] * u[1] + u[2] * u[2]) * (v[1] * v[1] + v[2] * v[2]) THEN "ok"          \* |cos| > 0.2
+            ELSE IF ~(100 * s * s >= 64 * fd /\ 64 * s * s <= 100 * fd) THEN "scale_is_not_the_local_pixel_size_ratio_at_the_overlap_centre"     \* within 25%
             ELSE IF k > 1 /\ (64 * k - 2) > s THEN "read_shrink_exceeds_scale_by_more_than_the_tolerance"
             ELSE "ok"
 =============================================================================
